@@ -266,7 +266,11 @@ pub fn check(c: &LockCase, run: &LockRun) -> Result<(u32, bool), (String, String
     Ok((increases, increase_by_end))
 }
 
-fn run(ctx: &Ctx, _mode: &str) -> Report {
+fn run(ctx: &Ctx, mode: &str) -> Report {
+    if mode == "loop" {
+        // progress (and safety) across the rounds of a replay loop: the timestamped-job engine
+        return super::c06::run_other(ctx, "loop");
+    }
     let mut report = Report::default();
     let known = load_known(&ctx.verif_dir);
     let f6_open = is_open(&known, "C17", "frontier-increase-by-ended-replica-not-forwarded");
@@ -303,6 +307,9 @@ fn run(ctx: &Ctx, _mode: &str) -> Report {
 }
 
 fn replay(_ctx: &Ctx, v: &Value) -> Result<String, String> {
+    if v.get("tsjob").is_some() {
+        return super::c06::replay_ts(_ctx, v);
+    }
     let c: LockCase = serde_json::from_value(v["lockstep"].clone()).map_err(|e| e.to_string())?;
     let run = run_lockstep(&c, AddrSeed { shard: 217, job: 0 })?;
     check(&c, &run).map(|_| "the consumer observed the frontier".to_string()).map_err(|(c, _, m)| format!("[{c}] {m}"))
@@ -313,9 +320,9 @@ pub fn def() -> CheckDef {
     CheckDef {
         id: "C17",
         level: "exploration",
-        rule: "lock-step histories: 1-5 scripted producer replicas (scripts respect the watermark contract; replicas without watermarks, without data, ending early) send one message per scripted flush over a forward edge to ONE consumer replica; through the observer hook the harness parks every producer before each send and releases the messages in a generated interleaving (bursts let a producer run ahead), waiting until the consumer has drained each one, so the arrival order at the block input is exactly the generated one; oracle = reference model of the frontier: m = minimum, over the producers that have not ended the iteration, of their latest watermark; before every element the operators observe, the last watermark they observed must equal m (progress), and every observed watermark is a value m took since the previous element, strictly increasing (safety); elements are observed in arrival order; non-trivial = m increased >= 2 times with >= 2 producers, at least once because a producer ended; distinct = hash of (scripts, interleaving)",
+        rule: "lock-step histories: 1-5 scripted producer replicas (scripts respect the watermark contract; replicas without watermarks, without data, ending early) send one message per scripted flush over a forward edge to ONE consumer replica; through the observer hook the harness parks every producer before each send and releases the messages in a generated interleaving (bursts let a producer run ahead), waiting until the consumer has drained each one, so the arrival order at the block input is exactly the generated one; oracle = reference model of the frontier: m = minimum, over the producers that have not ended the iteration, of their latest watermark; before every element the operators observe, the last watermark they observed must equal m (progress), and every observed watermark is a value m took since the previous element, strictly increasing (safety); elements are observed in arrival order; non-trivial = m increased >= 2 times with >= 2 producers, at least once because a producer ended; distinct = hash of (scripts, interleaving); a second mode (loop, shared with C06) runs timestamped replay(2-4 rounds) bodies over multi-replica scripted sources: when every source replica of the deployment has a script with watermarks, every replica behind the first repartitioning of the body must observe at least one watermark in EVERY round (the frontier becomes defined whatever the interleaving), together with the safety clause",
         assumptions: &["one consumer replica, forward edge, local transport (the frontier logic is the same for every edge kind and transport)"],
-        modes: |t| vec![("main", t.pick(8, 14))],
+        modes: |t| vec![("main", t.pick(8, 12)), ("loop", t.pick(4, 6))],
         run,
         replay,
     }
